@@ -15,6 +15,31 @@ successful run, whatever map-iteration order, time or process identity) and idem
    source package, in its _test package, in a directory below a recursive package, in a separate tree):
    no byte may change, no file may appear -- no mocks of mocks.
 4. The hook trace of every fresh run is validated by TLC against OrderTrace.tla (contract of Order.tla).
+5. Histories: the re-run must also restore the clean output when every generated file was edited by hand, and when the
+   tree was produced by the OTHER built-in template (same file names) before.
+
+Coverage table (statement clause / quantifier dimension -> where it is explored -> what is still thin)
+  same exit status on every run                      failing worlds: schema-violating data, unretrievable schema with mixed
+                                                     require-template-schema-exists; k = 3..14 runs (quick), <= 30 (thorough).
+  same files, same bytes on success                  probe template dumping imports / file-level and per-mock template-data / methods;
+                                                     testify + matryer x goimports / gofmt / noop; whole-tree hash.
+  independent of iteration order                     package map: 1-3 model packages (rotations only) or + 9 padding packages (> 8 entries:
+                                                     really random), shuffled YAML key order; file map: up to 7 model files + 9 padding
+                                                     files; nested recursive pairs + unrelated recursive package; per-file parameters with
+                                                     MIXED values across the files of one run (template, template-schema, require-schema,
+                                                     formatter, force-file-write); shared custom template; same-named imports first met
+                                                     inside one composite type; non-idempotent functions on cross-referenced name templates;
+                                                     one mock carrying template-data keys nobody else sets.
+                                                     Thin: 2 interfaces per model package (no 200-interface file); remote templates only
+                                                     via file://.
+  independent of time / process identity             runs span >= 1.2 s, different PIDs.  Absent: coarser clocks (date stamps).
+  "fixed environment"                                HOME / TMPDIR / TZ / cwd are deliberately NOT varied between the runs of a world.
+  re-run over own output                             12 layouts: in-package (absolute, relative, ./, ../ from a sub-directory, ConfigDir),
+                                                     _test file, _test package, sub-directory below recursive packages, separate tree;
+                                                     `all` and include-regex selection.
+  histories                                          previous output edited by hand; previous output from the other template.
+                                                     Absent: previous output from an older layout (other file names -> stale files are
+                                                     outside the statement), partial previous output.
 """
 import json
 import math
